@@ -5,6 +5,7 @@ import Kdf.Model.Map
 new <id>
 set <id> <addr> <endoff> <meth> <allocOk 0|1>
 search <id> <addr>
+reinst <id>
 copy <src> <dst> <allocMap 0|1> <allocRanges 0|1>
 ```
 Output: `> <status> <n> <endoff>:<meth> ...` after `set`/`new`, `> <meth>` after
@@ -32,6 +33,10 @@ partial def loop (h : IO.FS.Stream) (maps : Array Map) : IO Unit := do
     let (st, m') := mapSet m addr.toNat! ⟨endoff.toNat!, meth.toInt!⟩ (ok == "1")
     IO.println s!"> {showStatus st} {showMap m'}"
     loop h (maps.setIfInBounds id.toNat! m')
+  | ["reinst", id] =>
+    -- installing the map in a translation system and taking it back is the identity on the map
+    IO.println s!"> ok {showMap (maps.getD id.toNat! [])}"
+    loop h maps
   | ["search", id, addr] =>
     IO.println s!"> {mapSearch (maps.getD id.toNat! []) addr.toNat!}"
     loop h maps
